@@ -97,6 +97,15 @@ CHECKS = {
             "agrees.",
             "the harness's own knowledge of which schemas exist and which generated contents violate the planted schemas",
             "DESIGN.md §3 C10"),
+    "C11": ("exploration",
+            "before/after structural diff of the normal form reconciled with the repair log (multiset equality), Decimal oracle for losslessness",
+            "Generated schemas (ENUM pools with case structure, NUMBER fields) x instances with perturbed values, missing/extra "
+            "fields, unrelated blocks and zones, through repair(), octave_validate(fix) and octave_write(lenient, schema): fix "
+            "off changes nothing; fix on keeps keys/nesting/order and changes only leaves that are a case change to the unique "
+            "case-insensitive ENUM member or a text-to-number change with equal decimal value; changes == log entries (tier "
+            "REPAIR, exact before/after); repairing twice is a no-op. Sampled.",
+            "schema field names are generated only as direct children of the schema's block; Python's Decimal decides losslessness",
+            "DESIGN.md §3 C11"),
 }
 
 NOT_YET = {
